@@ -262,7 +262,7 @@ def _(c):
                   opt_eq(b_["feedRate"], last_word(cmd, "F")), Not(is_none(b_["finalZ"])), veq(b_["finalZ"], z),
                   f.result is plm[2] or getattr(f, "native", False)]
         return And(*conds)
-    c.ensures("C16.arc-delegation", delegation, props=("C16", "C19", "C01", "C03", "C09"))
+    c.ensures("C16.arc-delegation", delegation, props=("C16", "C19", "C01", "C02", "C03", "C09"))
 
     def endpoint(f):
         """The values handed on denote the RS274 end point of the arc in the current positioning mode (an axis
@@ -285,7 +285,7 @@ def _(c):
     # F14: arcs are planned in absolute logical coordinates whatever the positioning mode
     c.call_pre_case(S + "processLinearMoves", "arc-samples-absolute", "relative-positioning",
                     lambda f: Not(f.self.state.position.X_AXIS.absoluteMode))
-    c.ensures("track.arc-endpoint-follows-file", endpoint, props=("C01", "C03", "C08", "C16"),
+    c.ensures("track.arc-endpoint-follows-file", endpoint, props=("C01", "C02", "C03", "C08", "C16"),
               cases={"relative-positioning": lambda f: Not(f.self.state.position.X_AXIS.absoluteMode)})
 
 
